@@ -151,7 +151,7 @@ func (env *vhConnEnv) RoundTrip(req *http.Request) (*http.Response, error) {
 	var s []byte
 	// the templates enabled by TPLMASK (bit i = template i)
 	var enabled []int
-	for i := 0; i < 6; i++ {
+	for i := 0; i < 7; i++ {
 		if env.tplMask&(1<<uint(i)) != 0 {
 			enabled = append(enabled, i)
 		}
@@ -170,6 +170,9 @@ func (env *vhConnEnv) RoundTrip(req *http.Request) (*http.Response, error) {
 		s = append(append([]byte("retry:"), d...), []byte("\n\n")...)
 	case 5:
 		s = []byte("id:7\n\nid:\n\n") // an empty id resets the stored one
+	case 6:
+		// a later id field on the same connection (possibly NUL: then ignored) followed by an event without id
+		s = append(append([]byte("id:7\n\nid:"), verifNondetBytes("idhole", 1)...), []byte("\ndata:x\n\n")...)
 	}
 	r := &vhReader{data: s}
 	switch verifChoose("endkind", 2) {
@@ -314,6 +317,7 @@ func vhConnect() {
 				}
 				if maxRetries > 0 {
 					verifAssert(series == maxRetries+1, "C11/Connect/returns-only-when-retries-are-exhausted")
+					verifAssert(series == maxRetries+1, "C12/Connect/a-successful-connection-resets-the-retry-count")
 				} else {
 					verifAssert(series == 1, "C11/Connect/no-retries-configured-returns-after-first-failure")
 				}
@@ -421,6 +425,7 @@ func vhConnect() {
 				verifAssert(fresh, "C10/Connect/body-re-obtained-through-GetBody-for-every-retry")
 			case 3:
 				verifAssert(false, "C10/Connect/consumed-body-without-GetBody-never-resent")
+				verifAssert(false, "C11/Connect/body-reset-failure-returns-at-once")
 			}
 		}
 		if a.kind == 2 && !(env.cancelInBody && i == n-1) {
@@ -432,6 +437,7 @@ func vhConnect() {
 	}
 	if env.getBodyFailed {
 		verifAssert(n == env.attemptsAtGetBodyFailure && env.getBodyCalls == getBodyFailsAt+1, "C10/Connect/no-request-after-GetBody-failed")
+		verifAssert(n == env.attemptsAtGetBodyFailure, "C11/Connect/body-reset-failure-returns-at-once")
 	}
 	if !ctxDone {
 		var ce *ConnectionError
